@@ -434,6 +434,46 @@ def absCur (s : LSet) (d : Dir) (c : Cursor) : Spec.ACur :=
         let t := target s .rev (size s + 1) (pv s b)
         .gap (if t = 0 then 0 else bs.idxOf t + 1)
 
+/-! ### slices: `DoublyLinkedSet.__getitem__(slice)` is `tuple(self)[index]` (_linked_list.py:151-152)
+
+The tuple is built by a complete forward iteration of the pointer structure; the slice is CPython's
+tuple slicing (`PySlice_Unpack`, `PySlice_AdjustIndices`, then `src[start + i * step]`). -/
+
+/-- `PySlice_AdjustIndices` for one bound -/
+def sliceClip (n : Nat) (k x : Int) : Int :=
+  if x < 0 then (if x + n < 0 then (if k < 0 then -1 else 0) else x + n)
+  else if x ≥ n then (if k < 0 then (n : Int) - 1 else n) else x
+
+def sliceStart (n : Nat) (k : Int) : Option Int → Int
+  | none => if k < 0 then (n : Int) - 1 else 0
+  | some x => sliceClip n k x
+
+def sliceStop (n : Nat) (k : Int) : Option Int → Int
+  | none => if k < 0 then -1 else (n : Int)
+  | some x => sliceClip n k x
+
+/-- the slice length computed by `PySlice_AdjustIndices` -/
+def sliceCount (a b k : Int) : Nat :=
+  if k < 0 then (if b < a then ((a - b - 1) / (-k) + 1).toNat else 0)
+  else (if a < b then ((b - a - 1) / k + 1).toNat else 0)
+
+/-- `slice(start, stop, step).indices(n)` with the count of selected positions:
+    `none` = `ValueError("slice step cannot be zero")` -/
+def sliceIndices (n : Nat) (start stop step : Option Int) : Option (Int × Int × Nat) :=
+  let k := step.getD 1
+  if k = 0 then none else
+  some (sliceStart n k start, k, sliceCount (sliceStart n k start) (sliceStop n k stop) k)
+
+/-- tuple slicing of a list -/
+def pySlice (L : List Nat) (start stop step : Option Int) : Option (List Nat) :=
+  match sliceIndices L.length start stop step with
+  | none => none
+  | some (a, k, cnt) => some ((List.range cnt).filterMap fun (i : Nat) => L[(a + (i : Int) * k).toNat]?)
+
+/-- `self[start:stop:step]`: `tuple(self)` is a fresh forward generator run to exhaustion -/
+def getSlice (s : LSet) (start stop step : Option Int) : Option (List Nat) :=
+  pySlice (rest s .fwd .notStarted) start stop step
+
 /-! ### Executable form of the invariants (tested through the driver; proved in Props/C11) -/
 
 def allBelow (s : LSet) : Bool :=
@@ -593,5 +633,61 @@ def specVisit (w : RWorld) (d : Dir) : Nat → Nat → List Out
 /-- the whole run of `RecursiveGraphIterator(g)` -/
 def specTop (w : RWorld) (d : Dir) (k : Nat) (g : Nat) : List Out :=
   Out.enter g :: specLoop (specVisit w d k) w d g (w.nodesOf d g)
+
+/-! #### decidable shape of the nesting (what `Ranked` / `StaticRanked` of Props/C11 are derived from)
+
+The nesting relation "graph `g` has a node from which subgraph `h` is entered" is given by a
+function `kids : graph -> list of subgraphs`.  `hgtG kids k g` is the length of the longest
+nesting chain below `g`, capped at `k`.  When one more unit of fuel does not change it for any
+graph that has subgraphs at all, no graph is nested in itself and the height is a rank. -/
+
+def hgtG (kids : Nat → List Nat) : Nat → Nat → Nat
+  | 0, _ => 0
+  | k + 1, g => (kids g).foldr (fun h m => max (hgtG kids k h + 1) m) 0
+
+/-- no graph among `gs` reaches itself: one more unit of fuel does not change any height -/
+def stableG (kids : Nat → List Nat) (n : Nat) (gs : List Nat) : Bool :=
+  gs.all fun g => hgtG kids n g == hgtG kids (n + 1) g
+
+/-- the subgraphs entered from the nodes `vs` (those on which the `recursive` predicate holds) -/
+def RWorld.kidsOf (w : RWorld) (d : Dir) (vs : List Nat) : List Nat :=
+  (vs.filter w.recurse).flatMap (w.visit d)
+
+/-- current nesting: the subgraphs entered from the present members of graph `g` -/
+def RWorld.kids (w : RWorld) (d : Dir) (g : Nat) : List Nat := w.kidsOf d (toList (w.setOf g))
+
+def RWorld.hgt (w : RWorld) (d : Dir) (g : Nat) : Nat := hgtG (w.kids d) w.sets.length g
+
+/-- **no graph is nested in itself** (through the present members of the graphs) -/
+def RWorld.acyclic (w : RWorld) (d : Dir) : Bool :=
+  stableG (w.kids d) w.sets.length (List.range w.sets.length)
+
+/-- static nesting: the subgraphs hanging under the nodes whose home graph is `g`, whether or not
+    they are currently members of it (edits of node sequences do not change it) -/
+def RWorld.skids (w : RWorld) (d : Dir) (home : Nat → Nat) (g : Nat) : List Nat :=
+  w.kidsOf d ((w.attrs.map (·.1)).filter (fun v => home v == g))
+
+def RWorld.shgt (w : RWorld) (d : Dir) (home : Nat → Nat) (g : Nat) : Nat :=
+  hgtG (w.skids d home) w.attrs.length g
+
+def RWorld.acyclicStatic (w : RWorld) (d : Dir) (home : Nat → Nat) : Bool :=
+  stableG (w.skids d home) w.attrs.length (w.attrs.map (fun p => home p.1))
+
+/-- every node is a member of its home graph only -/
+def RWorld.homedOk (w : RWorld) (home : Nat → Nat) : Bool :=
+  (List.range w.sets.length).all fun g => (toList (w.setOf g)).all fun v => home v == g
+
+/-- **each graph hangs under at most one attribute position**: the list of all subgraph
+    references of all attribute entries has no duplicates, and the root `g0` is not referenced -/
+def RWorld.unshared (w : RWorld) (g0 : Nat) : Bool :=
+  let refs := w.attrs.flatMap fun p => p.2.flatMap fun a =>
+    match a with
+    | .graph h => [h]
+    | .graphs hs => hs
+  decide refs.Nodup && !refs.contains g0
+
+/-- the tree-shape predicate evaluated on every generated case -/
+def RWorld.treeShape (w : RWorld) (home : Nat → Nat) (g0 : Nat) : Bool :=
+  w.acyclicStatic .fwd home && w.acyclic .fwd && w.unshared g0 && w.homedOk home
 
 end IrVerif.LinkedSet
